@@ -12,4 +12,5 @@ pub mod eip712;
 pub mod grammar;
 pub mod nfkd;
 pub mod selftest;
+pub mod trace;
 pub mod txjson;
